@@ -28,11 +28,18 @@
          keywords LET FOR RETURN FILTER SORT LIMIT COLLECT keep their clause
          meaning (the implementation reads FILTER (x) as a call of a function
          named FILTER: recorded finding);
-       - '?' directly after a call or a parenthesised expression is the error
-         operator unless a ternary can be read there: outside a then-branch,
-         when the next token is ':' or an expression followed by ':' can be
-         parsed after it ([tern_ahead]); inside a then-branch (where a ':' is
-         expected anyway) when the next token cannot follow an operand;
+       - '?' directly after a call or a parenthesised expression is either
+         the error operator or the '?' of a ternary.  Where the next tokens
+         settle it ([q_decide]: a token that can never follow an operand
+         forces the ternary, a token that cannot start an expression forces
+         the error operator, "?:" outside a then-branch is the shorthand
+         ternary) the parser just takes that reading; otherwise it asks the
+         oracle [choice], indexed by the number of tokens after the '?'.
+         [parse_program] / [parse_expr] try the oracles in the order of the
+         generated parser's preference — error operator first, leftmost
+         decision most significant — and take the first reading under which
+         the WHOLE token list parses: a text is well-formed iff some reading
+         parses it, and an ambiguous text gets the reading ALL( * ) takes;
        - RETURN DISTINCT: DISTINCT is the keyword when an expression can start
          after it.
    * Not supported (parse fails, [uses_unsupported] says why): USE heads and
@@ -263,11 +270,39 @@ Definition starts_expr (k : kind) (k2 : option kind) : bool :=
          || (is_word k && match k2 with Some KLParen => true | _ => false end)
   end.
 
+(* the decision at a '?' that directly follows a call or ')' : [r] = the
+   tokens after the '?' *)
+Inductive qdec := QErr | QTern | QAsk.
+
+(* a token of this kind never follows a complete operand *)
+Definition never_after_operand (k : kind) : bool :=
+  match k with
+  | KLParen | KLBrack | KLBrace | KParam | KString | KInt | KFloat | KBool | KNull => true
+  | _ => false
+  end.
+
+Definition q_decide (tb : bool) (r : toks) : qdec :=
+  match r with
+  | [] => QErr
+  | (k, _) :: r2 =>
+      match k with
+      | KColon => if tb then QAsk else QTern
+      | KIdent => match r2 with (KLParen, _) :: _ => QAsk | _ => QTern end
+      | _ =>
+          if never_after_operand k then QTern
+          else if starts_expr k (match r2 with (k2, _) :: _ => Some k2 | [] => None end) then QAsk
+          else QErr
+      end
+  end.
+
 (* =====================================================================
-   Everything below the expression levels is parameterised by the
-   expression parser [pe tb lv ts], so that the only recursive function over
-   expressions is [parse_at]. *)
+   Everything below the expression levels is parameterised by the oracle
+   [choice] and by the expression parser [pe tb lv ts], so that the only
+   recursive function over expressions is [parse_at]. *)
 Section WithExpr.
+  (* [choice n] = true: the undecided '?' with [n] tokens after it is the
+     error operator *)
+  Variable choice : nat -> bool.
   (* [pe tb lv ts]: parse an expression of level [lv]; [tb] = we are inside the
      then-branch of a ternary (at the same bracket depth), where a ':' is
      still expected *)
@@ -277,42 +312,14 @@ Section WithExpr.
   Definition is_rparen (k : kind) : bool := match k with KRParen => true | _ => false end.
   Definition is_rbrack (k : kind) : bool := match k with KRBrack => true | _ => false end.
 
-  (* the ternary can be read after this '?'; None = out of fuel *)
-  Definition tern_ahead (r : toks) : option bool :=
-    match r with
-    | (KColon, _) :: _ => Some true
-    | _ => match pe false 1%nat r with
-           | POk _ ((KColon, _) :: _) => Some true
-           | PFuel => None
-           | _ => Some false
-           end
-    end.
-
-  (* can this token follow a complete operand inside an expression? *)
-  Definition follows_operand (k : kind) : bool :=
-    match k with
-    | KOr | KAnd | KLike | KNot | KIn | KAll | KAny | KNone | KEq | KNeq | KLt | KLte | KGt | KGte
-    | KRegexMatch | KRegexNotMatch | KPlus | KMinus | KMulti | KDiv | KMod | KQuestion | KColon
-    | KRParen | KRBrack | KRBrace | KComma => true
-    | _ => false
-    end.
-
-  (* error operator after a call / a parenthesised expression.  Outside a
-     then-branch the '?' is the ternary's whenever a ternary can be read
-     ([tern_ahead]); inside a then-branch, where a ':' is expected anyway, it
-     is the error operator whenever the next token can follow an operand. *)
+  (* error operator after a call / a parenthesised expression *)
   Definition postfix_q (tb : bool) (e : expr) (ts : toks) : pres expr :=
     match ts with
     | (KQuestion, _) :: r =>
-        let tern := if tb then match r with
-                               | (k, _) :: _ => Some (negb (follows_operand k))
-                               | [] => Some false
-                               end
-                    else tern_ahead r in
-        match tern with
-        | Some true => POk e ts
-        | Some false => POk (ESuppress e) r
-        | None => PFuel
+        match q_decide tb r with
+        | QTern => POk e ts
+        | QErr => POk (ESuppress e) r
+        | QAsk => if choice (List.length r) then POk (ESuppress e) r else POk e ts
         end
     | _ => POk e ts
     end.
@@ -702,42 +709,92 @@ Section WithExpr.
 End WithExpr.
 
 (* ------------------------------------------------- the expression levels *)
-Fixpoint parse_at (fuel : nat) (tb : bool) (lv : nat) (ts : toks) {struct fuel} : pres expr :=
-  match fuel with
-  | O => PFuel
-  | S f =>
-      let pe := parse_at f in
-      match lv with
-      | 1%nat => bindr (pe tb 2%nat ts) (tern_loop pe tb f)
-      | 4%nat =>
-          match ts with
-          | (k, _) :: r =>
-              match unop_of k with
-              | Some o => mapr (EUn o) (pe tb 4%nat r)
-              | None => pe tb 5%nat ts
-              end
-          | [] => PFail
-          end
-      | 0%nat | 2%nat | 3%nat | 5%nat | 6%nat | 7%nat | 8%nat | 9%nat | 10%nat | 11%nat =>
-          bindr (pe tb (S lv) ts) (bin_loop pe tb f lv)
-      | _ => primary pe tb f ts
-      end
-  end.
+Section WithChoice.
+  Variable choice : nat -> bool.
+
+  Fixpoint parse_at (fuel : nat) (tb : bool) (lv : nat) (ts : toks) {struct fuel} : pres expr :=
+    match fuel with
+    | O => PFuel
+    | S f =>
+        let pe := parse_at f in
+        match lv with
+        | 1%nat => bindr (pe tb 2%nat ts) (tern_loop pe tb f)
+        | 4%nat =>
+            match ts with
+            | (k, _) :: r =>
+                match unop_of k with
+                | Some o => mapr (EUn o) (pe tb 4%nat r)
+                | None => pe tb 5%nat ts
+                end
+            | [] => PFail
+            end
+        | 0%nat | 2%nat | 3%nat | 5%nat | 6%nat | 7%nat | 8%nat | 9%nat | 10%nat | 11%nat =>
+            bindr (pe tb (S lv) ts) (bin_loop pe tb f lv)
+        | _ => primary choice pe tb f ts
+        end
+    end.
+End WithChoice.
 
 Definition fuel_for (ts : toks) : nat := (64 * List.length ts + 80)%nat.
 
+(* one reading: the expression / the program at the front of [ts] and what
+   is left over, with the undecided '?' read as [choice] says *)
+Definition parse_expr_with (choice : nat -> bool) (ts : toks) : pres expr :=
+  let f := fuel_for ts in parse_at choice f false 1%nat ts.
+
+(* (a start rule without EOF does no more than this) *)
+Definition parse_prefix_with (choice : nat -> bool) (ts : toks) : pres program :=
+  let f := fuel_for ts in parse_body (parse_at choice f) f ts.
+
+(* the reading must cover the whole token list *)
+Definition whole {A} (r : pres A) : pres A :=
+  match r with
+  | POk a [] => POk a []
+  | POk _ (_ :: _) => PFail
+  | PFail => PFail
+  | PFuel => PFuel
+  end.
+
+(* the '?' tokens directly after ')' whose reading the next tokens do not
+   settle, identified by the number of tokens after them, leftmost first *)
+Fixpoint q_candidates (ts : toks) : list nat :=
+  match ts with
+  | (KRParen, _) :: (((KQuestion, _) :: r) as t) =>
+      match q_decide true r with
+      | QAsk => List.length r :: q_candidates t
+      | _ => q_candidates t
+      end
+  | _ :: r => q_candidates r
+  | [] => []
+  end.
+
+(* the oracle that reads exactly the candidates in [terns] as ternaries *)
+Definition choice_of (terns : list nat) (n : nat) : bool := negb (existsb (Nat.eqb n) terns).
+
+(* first success in preference order: for the leftmost candidate the error
+   operator (with every reading of the others) before the ternary *)
+Fixpoint search {A} (run : list nat -> pres A) (cands : list nat) (terns : list nat) : pres A :=
+  match cands with
+  | [] => run terns
+  | p :: rest =>
+      match search run rest terns with
+      | PFail => search run rest (p :: terns)
+      | x => x
+      end
+  end.
+
 Definition parse_expr (ts : toks) : pres expr :=
-  let f := fuel_for ts in parse_at f false 1%nat ts.
+  search (fun terns => whole (parse_expr_with (choice_of terns) ts)) (q_candidates ts) [].
 
-(* the program at the front of [ts] and what is left over
-   (this is all the generated parser does: its start rule has no EOF) *)
-Definition parse_prefix (ts : toks) : pres program :=
-  let f := fuel_for ts in parse_body (parse_at f) f ts.
+(* a query is a program followed by the end of the input, under some reading;
+   PFuel (out of fuel under some reading before a success) is reported by the
+   checks as a mismatch of its own *)
+Definition parse_query (ts : toks) : pres program :=
+  search (fun terns => whole (parse_prefix_with (choice_of terns) ts)) (q_candidates ts) [].
 
-(* a query is a program followed by the end of the input *)
 Definition parse_program (ts : toks) : option program :=
-  match parse_prefix ts with
-  | POk p [] => Some p
+  match parse_query ts with
+  | POk p _ => Some p
   | _ => None
   end.
 
